@@ -6,6 +6,7 @@ import (
 
 	"github.com/tidwall/btree"
 	"github.com/tidwall/geojson"
+	"github.com/tidwall/geojson/geo"
 	"github.com/tidwall/geojson/geometry"
 	"github.com/tidwall/rtree"
 	"github.com/tidwall/tile38/internal/deadline"
@@ -426,13 +427,32 @@ func (c *Collection) geoSearch(
 	return alive
 }
 
+// searchRect returns the rectangle used to query the spatial index for obj.
+// For a circle it covers the true great-circle disc that the per-object
+// Within/Intersects tests use: the rectangle of the circle's polygon
+// approximation does not contain the whole disc away from the equator, and is
+// wrong when the disc crosses the antimeridian or a pole.
+func searchRect(obj geojson.Object) geometry.Rect {
+	rect := obj.Rect()
+	if circle, ok := obj.(*geojson.Circle); ok {
+		center := circle.Center()
+		minLat, minLon, maxLat, maxLon :=
+			geo.RectFromCenter(center.Y, center.X, circle.Meters())
+		rect.Min.X = math.Min(rect.Min.X, minLon)
+		rect.Min.Y = math.Min(rect.Min.Y, minLat)
+		rect.Max.X = math.Max(rect.Max.X, maxLon)
+		rect.Max.Y = math.Max(rect.Max.Y, maxLat)
+	}
+	return rect
+}
+
 func (c *Collection) geoSparse(
 	obj geojson.Object, sparse uint8,
 	iter func(o *object.Object) (match, ok bool),
 ) bool {
 	matches := make(map[string]bool)
 	alive := true
-	c.geoSparseInner(obj.Rect(), sparse, func(o *object.Object) (match, ok bool) {
+	c.geoSparseInner(searchRect(obj), sparse, func(o *object.Object) (match, ok bool) {
 		ok = true
 		if !matches[o.ID()] {
 			match, ok = iter(o)
@@ -516,7 +536,7 @@ func (c *Collection) Within(
 			return match, ok
 		})
 	}
-	return c.geoSearch(obj.Rect(), func(o *object.Object) bool {
+	return c.geoSearch(searchRect(obj), func(o *object.Object) bool {
 		count++
 		if count <= offset {
 			return true
@@ -557,7 +577,7 @@ func (c *Collection) Intersects(
 			return match, ok
 		})
 	}
-	return c.geoSearch(gobj.Rect(), func(o *object.Object) bool {
+	return c.geoSearch(searchRect(gobj), func(o *object.Object) bool {
 		count++
 		if count <= offset {
 			return true
